@@ -276,3 +276,20 @@ class OpaqueV:
 
     def __repr__(self):
         return 'Opaque(%s)' % self.what
+
+
+class ArrBuf:
+    """byte buffer of symbolic length: z3 Array(BitVec64 -> BitVec8) + length (inductive mode)"""
+    __slots__ = ('arr', 'len')
+
+    def __init__(self, arr, ln):
+        self.arr = arr
+        self.len = ln
+
+
+class LoopBack(Exception):
+    """raised when execution re-enters the designated loop head (inductive mode)"""
+
+    def __init__(self, frame):
+        Exception.__init__(self, 'loop back-edge')
+        self.frame = frame
